@@ -85,6 +85,34 @@ def vspec(text):
             'pub open spec fn spec_pattern(p: HandshakePattern) -> SpecPattern {\n    match p {\n' + '\n'.join(arms) + '\n    }\n}\n' + derived + keys_lemma), [p[0] for p in pats]
 
 
+
+def pattern_names(text):
+    return [p[0] for p in parse(text)]
+
+
+def parser_names_spec(names):
+    """GENERATED part of the parser unit's grammar: the pattern names of the transcription as char sequences, the
+    literals they correspond to, and a numeric key per name (distinct keys => distinct names)."""
+    def chars(n):
+        return 'seq![%s]' % ', '.join("'%s'" % c for c in n)
+    def key(n):
+        cs = [ord(c) for c in n] + [0] * (4 - len(n))
+        return len(n) + 8 * (cs[0] + 256 * (cs[1] + 256 * (cs[2] + 256 * cs[3])))
+    hp = 'crate::params::HandshakePattern'
+    out = ['//- GENERATED from spec/noise_patterns.txt by framework/gen_patterns.py on every run']
+    out.append('pub open spec fn pat_name(p: %s) -> Seq<char> {\n    match p {\n%s\n    }\n}' % (
+        hp, '\n'.join('        %s::%s => %s,' % (hp, n, chars(n)) for n in names)))
+    out.append('pub open spec fn key_char(s: Seq<char>, i: int) -> int { if i < s.len() { s[i] as int } else { 0 } }')
+    out.append('pub open spec fn pat_key(s: Seq<char>) -> int { s.len() + 8 * (key_char(s, 0) + 256 * (key_char(s, 1) + 256 * (key_char(s, 2) + 256 * key_char(s, 3)))) }')
+    out.append('pub proof fn lemma_pat_literals()\n    ensures\n%s\n{\n%s\n}' % (
+        '\n'.join('        "%s"@ == pat_name(%s::%s),' % (n, hp, n) for n in names),
+        '\n'.join('    reveal_strlit("%s"); assert("%s"@ =~= %s);' % (n, n, chars(n)) for n in names)))
+    out.append('pub proof fn lemma_pat_keys(p: %s)\n    ensures pat_key(pat_name(p)) == (match p {\n%s\n    })\n{\n    match p {\n%s\n    }\n}' % (
+        hp, '\n'.join('        %s::%s => %dint,' % (hp, n, key(n)) for n in names),
+        '\n'.join('        %s::%s => { assert(pat_key(%s) == %d); },' % (hp, n, chars(n), key(n)) for n in names)))
+    return '\n'.join(out) + '\n'
+
+
 if __name__ == '__main__':
     import sys
     t, names = vspec(open(sys.argv[1]).read())
